@@ -537,10 +537,75 @@ def h_controller(kind):
     return ['controller', kind, sum(1 for l, _ in RECORDS if l >= 20)]
 
 
+def h_many_peers(n_peers):
+    """a gateway process with many connections, each with its own pair of pre-shared keys: one complete initial exchange per connection (arbitrary
+    subset order is irrelevant - all of them run); no record of level INFO or above contains any of the keys, raw or in hexadecimal (state that grows
+    with the number of distinct credentials - caches, tables - is exercised beyond its small sizes)"""
+    from symx import core
+    from ipaddress import ip_address
+    eng = core.engine()
+    m, ik, cfm = MODS['message'], MODS['ikesa'], MODS['configuration']
+    S = ik.IkeSa.State
+    del RECORDS[:]
+    del WIRE[:]
+    world.ENV.reset()
+    gw = world.IP2
+    conf, secrets = {}, []
+    for i in range(n_peers):
+        peer = ip_address(f'192.168.1.{10 + i}')
+        k_gw, k_peer = f'gw-secret-{i:02d}-Zq', f'peer-secret-{i:02d}-Xv'
+        secrets += [(f'the pre-shared key of the gateway for peer {i}', k_gw.encode()), (f'the pre-shared key of peer {i}', k_peer.encode())]
+        prot = {'index': 100 + i, 'ip_proto': 'tcp', 'mode': 'transport', 'lifetime': 50, 'ipsec_proto': 'esp', 'encr': ['aes256']}
+        conf[f'gw{i}'] = {'my_addr': str(gw), 'peer_addr': str(peer), 'my_auth': {'id': f'gw@example.org', 'psk': k_gw}, 'peer_auth': {'id': f'peer{i}@example.org', 'psk': k_peer},
+                          'dh': ['ecp256'], 'protect': [dict(prot)]}
+        conf[f'peer{i}'] = {'my_addr': str(peer), 'peer_addr': str(gw), 'my_auth': {'id': f'peer{i}@example.org', 'psk': k_peer}, 'peer_auth': {'id': 'gw@example.org', 'psk': k_gw},
+                            'dh': ['ecp256'], 'protect': [dict(prot, index=200 + i)]}
+    addrs = [gw] + [ip_address(f'192.168.1.{10 + i}') for i in range(n_peers)]
+    configuration = cfm.Configuration(addrs, conf)
+    E = world.Endpoint('GW', None)
+    with E:
+        ctl = MODS['ikesacontroller'].IkeSaController(my_addrs=[gw], configuration=configuration)
+    E.obj = ctl
+    TS = m.TrafficSelector
+    from ipaddress import ip_network
+    done = 0
+    for i in range(n_peers):
+        peer = addrs[1 + i]
+        a = ik.IkeSa(is_initiator=True, peer_spi=b'\0' * 8, configuration=configuration.get_ike_configuration(peer, gw), my_addr=peer, peer_addr=gw)
+        A = world.Endpoint(f'P{i}', a)
+        d = A.call(a.process_acquire, TS.from_network(ip_network(f'{peer}/32'), 0, TS.IpProtocol.TCP), TS.from_network(ip_network(f'{gw}/32'), 0, TS.IpProtocol.TCP), 200 + i)
+        to_gw = True
+        for _ in range(8):
+            if d is None:
+                break
+            try:
+                if to_gw:
+                    with E:
+                        d = ctl.dispatch_message(d, gw, peer)
+                else:
+                    d = A.call(a.process_message, d)
+            except Exception:     # noqa - what the main loop would swallow
+                d = None
+            to_gw = not to_gw
+        done += a.state == S.ESTABLISHED
+    for level, text in RECORDS:
+        if level < 20:
+            continue
+        for name, raw in secrets:
+            if raw.decode() in text or raw.hex() in text:
+                return {'class': ['many_peers'], 'violation': f'{n_peers} connections: a log record of level {level} contains {name}: {text[:160]!r}'}
+    if done != n_peers:
+        return {'class': ['many_peers'], 'violation': f'only {done} of {n_peers} peers with correct credentials could establish an IKE_SA'}
+    return ['many_peers', n_peers, sum(1 for l, _ in RECORDS if l >= 20)]
+
+
 def build_instances(tier):
     inst = []
     for kind in ('ignored_init', 'truncated_init', 'unknown_spi', 'normal'):
         inst.append(Instance(f'controller log: {kind}', h_controller, (kind,), engine_kw={'max_ticks': 10 ** 7}, must_reach=[('records', lambda o: o[0] == 'controller')]))
+    for n in ((3, 12) if tier == 'quick' else (1, 2, 5, 9, 12, 17, 33)):
+        inst.append(Instance(f'gateway with {n} connections', h_many_peers, (n,), native=common.native_of(h_many_peers), engine_kw={'max_ticks': 10 ** 7},
+                             must_reach=[('records', lambda o: o[0] == 'many_peers')]))
     inst.append(Instance('configuration errors never print a pre-shared key', h_cli_config, (), native=common.native_of(h_cli_config), engine_kw={'max_ticks': 10 ** 7},
                          must_reach=[('started', lambda o: o == ['cli_config', 'started']), ('refused', lambda o: o == ['cli_config', 'refused'])]))
     for k in ((0, 1, 2) if tier == 'quick' else (0, 1, 2, 3)):
